@@ -113,6 +113,13 @@ def cell_cases(ctx: Ctx):
                 if lk == "dask":
                     c["by_chunks"] = [c["chunks"]]
         cases.append(c)
+    # degenerate input inside the documented contract: no element has a valid label and nothing is requested
+    # (the NumPy specification is an empty result); eager and chunked, every method
+    for func in ("sum", "nanmax", "count", "argmax", "var", "nanfirst"):
+        for chunks in (None, [[6]], [[2, 2, 2]]):
+            for method in ((None,) if chunks is None else (None, "map-reduce", "cohorts")):
+                c = dict(array=enc(np.array([1.0, 2.0, 3.0, -1.0, 0.0, 2.0])), by=[enc(np.array([np.nan] * 6))], func=func, method=method, chunks=chunks, split_every=4)
+                cases.append(c)
     return cases, len(cells)
 
 
